@@ -174,6 +174,11 @@ func (c *compiler) compileTryStatement(v *ast.TryStatement, needResult bool) {
 			})
 			enter := &enterBlock{}
 			c.emit(enter)
+			if bodyNeedResult {
+				// the completion value of the statement is that of the catch block, or undefined: not what the
+				// try block had produced before it threw
+				c.emit(clearResult)
+			}
 			if pattern, ok := v.Catch.Parameter.(ast.Pattern); ok {
 				c.scope.bindings[0].emitGet()
 				c.emitPattern(pattern, func(target, init compiledExpr) {
@@ -199,6 +204,9 @@ func (c *compiler) compileTryStatement(v *ast.TryStatement, needResult bool) {
 			c.popScope()
 		} else {
 			c.emit(pop)
+			if bodyNeedResult {
+				c.emit(clearResult)
+			}
 			c.compileBlockStatement(v.Catch.Body, bodyNeedResult)
 		}
 		c.p.code[lbl2] = jump(len(c.p.code) - lbl2)
@@ -244,6 +252,9 @@ func (c *compiler) compileLabeledDoWhileStatement(v *ast.DoWhileStatement, needR
 		needResult: needResult,
 	}
 
+	if needResult {
+		c.emit(clearResult)
+	}
 	start := len(c.p.code)
 	c.compileStatement(v.Body, needResult)
 	c.block.cont = len(c.p.code)
@@ -930,13 +941,66 @@ func (c *compiler) scanStatements(list []ast.Statement) (lastProducingIdx int, b
 	return
 }
 
+// containsBranch reports whether a break or continue statement occurs in st (outside nested functions): such a
+// statement may complete without a value although it contains value producing statements.
+func containsBranch(st ast.Statement) bool {
+	any := func(list []ast.Statement) bool {
+		for _, s := range list {
+			if containsBranch(s) {
+				return true
+			}
+		}
+		return false
+	}
+	switch st := st.(type) {
+	case *ast.BranchStatement:
+		return true
+	case *ast.BlockStatement:
+		return any(st.List)
+	case *ast.LabelledStatement:
+		return containsBranch(st.Statement)
+	case *ast.IfStatement:
+		return containsBranch(st.Consequent) || st.Alternate != nil && containsBranch(st.Alternate)
+	case *ast.ForStatement:
+		return containsBranch(st.Body)
+	case *ast.ForInStatement:
+		return containsBranch(st.Body)
+	case *ast.ForOfStatement:
+		return containsBranch(st.Body)
+	case *ast.WhileStatement:
+		return containsBranch(st.Body)
+	case *ast.DoWhileStatement:
+		return containsBranch(st.Body)
+	case *ast.WithStatement:
+		return containsBranch(st.Body)
+	case *ast.TryStatement:
+		return any(st.Body.List) || st.Catch != nil && any(st.Catch.Body.List) || st.Finally != nil && any(st.Finally.List)
+	case *ast.SwitchStatement:
+		for _, cs := range st.Body {
+			if any(cs.Consequent) {
+				return true
+			}
+		}
+	}
+	return false
+}
+
 func (c *compiler) compileStatementsNeedResult(list []ast.Statement, lastProducingIdx int) {
 	if lastProducingIdx >= 0 {
+		// the value of the list is that of its last value producing statement; the statements before it need not
+		// keep theirs, unless a break/continue can leave the list before that statement has produced anything
+		keep := false
+		for _, st := range list[:lastProducingIdx+1] {
+			if containsBranch(st) {
+				keep = true
+				break
+			}
+		}
 		for _, st := range list[:lastProducingIdx] {
 			if _, ok := st.(*ast.FunctionDeclaration); ok {
 				continue
 			}
-			c.compileStatement(st, false)
+			c.compileStatement(st, keep)
 		}
 		c.compileStatement(list[lastProducingIdx], true)
 	}
